@@ -72,6 +72,14 @@ def midi_to_note_sequence(midi_data):
                                 (sys.exc_info()[0], sys.exc_info()[1]))
   # pylint: enable=bare-except
 
+  if midi.resolution <= 0:
+    # A negative time division in the MIDI header means SMPTE time code.
+    # pretty_midi reads it as (negative) ticks per quarter note, which makes
+    # every event time after tick 0 negative.
+    raise MIDIConversionError(
+        'Unsupported MIDI time division %d: only a positive number of ticks '
+        'per quarter note is supported' % midi.resolution)
+
   sequence = music_pb2.NoteSequence()
 
   # Populate header.
